@@ -7,6 +7,7 @@
 #include "bitserializer/types/std/optional.h"
 #include "bitserializer/types/std/memory.h"
 #include "bitserializer/types/std/vector.h"
+#include "bitserializer/types/std/bitset.h"
 namespace verif_inst {
 using namespace BitSerializer;
 // abstract array scope of some archive in load mode: only declarations - every call is a contract-only callee
@@ -20,6 +21,7 @@ public:
 };
 bool load_optional(AbsLoadArrayScope& scope, std::optional<int>& v) { return BitSerializer::Serialize(scope, v); }
 bool load_unique(AbsLoadArrayScope& scope, std::unique_ptr<int>& v) { return BitSerializer::Serialize(scope, v); }
+void load_bitset(AbsLoadArrayScope& scope, std::bitset<8>& cont) { BitSerializer::SerializeArray(scope, cont); }
 void load_vector_bool(AbsLoadArrayScope& scope, std::vector<bool>& cont) { BitSerializer::SerializeArray(scope, cont); }
 void load_vector(AbsLoadArrayScope& scope, std::vector<int>& cont) { BitSerializer::Detail::SerializeContainer(scope, cont); }
 }
